@@ -12,7 +12,7 @@ export CARGO_NET_OFFLINE=true CARGO_TARGET_DIR="$WT/target"
 cd "$WT" || exit 2
 git checkout -q -- . ; git clean -fdq -e SEED -e target
 PLACE=$(python3 -c "import json;print(json.load(open('$S/meta.json'))['demo_place'])")
-CMD=$(python3 -c "import json;print(json.load(open('$S/meta.json'))['demo_cmd'])")
+CMD=$(python3 -c "import json,re;print(re.split(r'\s{2,}\(', json.load(open('$S/meta.json'))['demo_cmd'])[0])")
 DEMO=$(basename "$PLACE")
 [ -f "$S/$DEMO" ] || DEMO=$(ls "$S" | grep -E '\.(rs|py|sh)$' | head -1)
 echo "== demo file $DEMO -> $PLACE ; cmd: $CMD"
